@@ -344,6 +344,12 @@ TableList(s, f, fid) ==
     IF fid # -1 THEN s.cache[CacheEntryIndex(s, fid)].list
     ELSE SeqConcat([n \in 1..Len(s.nodes) |-> NodeTables(s, f, n - 1)])
 
+(* Iteration order of a query (ecs/query.go): tables in the order of TableList, rows in row order;  *)
+(* empty and retired tables contribute nothing.                                                       *)
+TableEntities(s, ref) == LET rows == Tbl(s, ref[1], ref[2]).rows IN [i \in DOMAIN rows |-> rows[i].e]
+LQueryOrder(s, f, fid) ==
+    LET refs == TableList(s, f, fid) IN SeqConcat([i \in DOMAIN refs |-> TableEntities(s, refs[i])])
+
 (* Cache.Register / Unregister *)
 LRegister(s, f) ==
     [s EXCEPT !.cache = Append(@, [fid |-> s.fidNext, f |-> f, list |-> TableList(s, f, -1), hasIdx |-> FALSE, idx |-> {}]),
